@@ -418,6 +418,23 @@ fn translate_mode(spec: &Spec, f_sig: &Signature, body: &Block, sigs: &BTreeMap<
             base_stmts.extend(u.block.stmts.iter().cloned());
         }
     }
+    if let Some(fr) = spec.from {
+        let starts = |c: &Ctx, s: &Stmt| -> bool {
+            if c.nk(s).starts_with(fr) {
+                return true;
+            }
+            if let Stmt::Local(l) = s {
+                if let Some(init) = &l.init {
+                    return c.nk(&*init.expr).starts_with(fr);
+                }
+            }
+            false
+        };
+        match base_stmts.iter().position(|s| starts(&c, s)) {
+            Some(i) => base_stmts = base_stmts[i..].to_vec(),
+            None => return unsup(&format!("no top-level statement starting with `{}`", fr), body.span()),
+        }
+    }
     if let Some(u) = spec.until {
         let starts = |c: &Ctx, s: &Stmt| -> bool {
             if c.nk(s).starts_with(u) {
@@ -1523,6 +1540,9 @@ impl<'a> Ctx<'a> {
                 let rty = if matches!(l.ty, Ty::Addr) { Ty::Addr } else if matches!(l.ty, Ty::NonZero) { Ty::Int(64) } else { l.ty.clone() };
                 let w64 = is_w64(&l.ty) || (matches!(l.ty, Ty::NonZero));
                 match &b.op {
+                    BinOp::Add(_) if matches!((&l.ty, &r.ty), (Ty::Int(32), Ty::Int(32))) => {
+                        c.bind_op(format!("padd32 m {} {} {}", line, l.s, r.s), Ty::Int(32), k)
+                    }
                     BinOp::Add(_) | BinOp::Sub(_) | BinOp::Mul(_) => {
                         if !(both_int && w64) {
                             return unsup("arithmetic on non-64-bit or non-integer operands", b.span());
@@ -2013,7 +2033,7 @@ impl<'a> Ctx<'a> {
                         parts.push(format!("{}", w));
                     }
                     Ty::Bool => parts.push(format!("(N.b2n {})", t.s)),
-                    Ty::Unit => {}
+                    Ty::Unit | Ty::Abs(_) => {}
                     _ => return unsup("non-integer argument of an effect call", sp),
                 }
             }
